@@ -3,8 +3,8 @@
   C09, C11, C12, C17, and the contracts of the leaf locks and of every algorithm under it.
 
   Ghost state: how many holds of each lock (per mode) the thread owns (`held`), holds whose
-  release panicked (`stuck`: still locked, lock killed), whether the thread is inside an API
-  that must not block (`noBlock`), how many panic answers it has received (`panics`).
+  release panicked (`stuck`: still locked, lock killed), how deeply the thread is inside APIs
+  that must not block (`depth`), how many panic answers it has received (`panics`).
   `n` bounds the number of panic answers the environment may give (0 = fault-free,
   1 = one-shot fault, any `n` = persistent faults).
 -/
@@ -56,20 +56,22 @@ theorem Held.Covers.pos {h : Held} {x : LockId} {m : Mode} {l : Fp} (hc : h.Cove
 structure HG where
   held : Held := Held.empty
   stuck : Held := Held.empty
-  noBlock : Bool := false
+  depth : Nat := 0          -- nesting depth of non-blocking API calls (try_*, Debug, …)
   panics : Nat := 0
 
 def respPanics : Resp → Nat | .panic => 1 | _ => 0
 
 /-- Obligations of the code (g1, g3, g4, g5 of DESIGN §4; g2 is `RankSpec`). -/
 def holdPre (g : HG) : Op → Prop
-  | .acq _ true _ => g.noBlock = false                      -- g3: never block inside try / non-acquiring APIs
+  | .acq _ true _ => g.depth = 0                      -- g3: never block inside try / non-acquiring APIs
   | .acq _ false _ => True
   | .rel m x => 0 < g.held x m                              -- g1: release only what is held, in its mode
   | .kill _ => False                                        -- happylock itself never kills a lock
   | .access x (some _) => 0 < g.held x .excl                -- g4
   | .access x none => 0 < g.held x .excl ∨ 0 < g.held x .shared
-  | .mark n => n = mkKeyBack → ∀ x m, g.held x m = 0        -- g5: key handed back ⇒ nothing held
+  | .mark n =>                                              -- g5: key handed back ⇒ nothing held;
+    (n = mkKeyBack ∨ n = mkBeginBlocking ∨ n = mkBeginTry) →  --     an acquiring call starts ⇒ nothing held
+      ∀ x m, g.held x m = 0
   | _ => True
 
 /-- What the environment may answer. -/
@@ -88,8 +90,8 @@ def holdUpd (g : HG) : Op → Resp → HG
   | .rel m x, .panic =>
     { g with held := g.held.sub x m, stuck := g.stuck.add x m, panics := g.panics + 1 }
   | .mark k, _ =>
-    if k = mkBeginTry ∨ k = mkBeginNonAcq then { g with noBlock := true }
-    else if k = mkEndCall then { g with noBlock := false }
+    if k = mkBeginTry ∨ k = mkBeginNonAcq then { g with depth := g.depth + 1 }
+    else if k = mkEndCall then { g with depth := g.depth - 1 }
     else g
   | _, _ => g
 
@@ -101,7 +103,7 @@ section leaf
 variable (n : Nat)
 
 theorem rwLeaf_acq (x : LockId) (m : Mode) (Q : Unit → HG → Prop) (E : Unit → HG → Prop) (g : HG)
-    (hb : g.noBlock = false)
+    (hb : g.depth = 0)
     (hok : Q () { g with held := g.held.add x m })
     (hp : g.panics < n → E () { g with panics := g.panics + 1 }) :
     wp (HoldSpec n) ((rwLeaf x).acq m) Q E g := by
